@@ -57,7 +57,7 @@ var catalogue = []catEntry{
 	{"flag-invalid", nil},
 	{"tkt-flip", nil}, {"tkt-trunc", nil}, {"tkt-extend", nil},
 	{"auth-flip", nil}, {"auth-trunc", nil}, {"auth-extend", nil},
-	{"cname-mismatch", nil}, {"cname-extra-component", nil}, {"cname-empty", nil}, {"crealm-mismatch", nil},
+	{"cname-mismatch", nil}, {"cname-extra-component", nil}, {"cname-fewer-components", nil}, {"cname-empty", nil}, {"crealm-mismatch", nil},
 	{"pac-flipped", nil}, {"pac-wrongkey", nil}, {"pac-sigflipped", nil}, {"pac-truncated", nil}, {"pac-nosig", nil}, {"pac-noinfo", nil},
 }
 
